@@ -179,3 +179,30 @@ func Verif_C02_second_connection_starts_clean() {
 	verifCover("second-connection-clean")
 	e.p.stop()
 }
+
+// An acceptable OPEN is accepted however TCP segments it: the first 3 Read calls return a symbolic
+// byte count (every split point inside the header and inside the body).
+func Verif_C02_open_in_segments() {
+	verifEngineOnly()
+	verifNote("OpenSent receives a well-formed acceptable OPEN (symbolic AS / identifier, 4-octet-AS capability) whose bytes arrive in pieces: the first 3 Read calls return a symbolic count 1..available (all segmentations of header and body within 3 short reads); it must be accepted exactly as when it arrives whole")
+	cfg := symConfig()
+	verifAssume(cfg.holdSec >= 3)
+	remoteID := verifU32("remoteID")
+	verifAssume(verifAnd(remoteID>>24 < 224, verifNot(verifAnd(cfg.localAS == cfg.remoteAS, cfg.localID == remoteID))))
+	verifAssume(remoteID != 0)
+	body := mkOpenBody(cfg.remoteAS, 90, remoteID)
+	conn := newSymConn("c", mkFrame(verifMsgOpen, body), 0)
+	conn.shortReads = 3
+	pl := newMonPlugin()
+	p := mkPeer(cfg, pl)
+	f := fsmInOpenSent(p, conn)
+	to, err := f.openSent()
+	verifQuiesce()
+	verifAssert("segmented-open-accepted", verifAnd(to == openConfirmState, err == nil))
+	verifAssert("segmented-open-onopenmessage-once", pl.nOpen == 1)
+	a4 := pl.gotRID.As4()
+	verifAssert("segmented-open-identifier", uint32(a4[0])<<24|uint32(a4[1])<<16|uint32(a4[2])<<8|uint32(a4[3]) == remoteID)
+	verifAssert("segmented-open-one-keepalive", len(conn.writes) == 1 && isKeepalive(conn.writes[0]))
+	verifAssert("segmented-open-keeps-connection", !conn.closed)
+	verifCover("segmented-open-accepted")
+}
